@@ -120,6 +120,9 @@ def check_thread(inp):
     from musiclang import Score
     from musiclang.write.out.to_midi import get_notes
     score = Score.from_str(inp['score']) if isinstance(inp, dict) and 'score' in inp else None
+    if inp.get('plain_rests'):
+        import sound
+        score = sound.plain_rests(score)       # rests as plain notes of type 'r' (what replace(x, r) produces): seed C09-6
     exp = []
     last = None
     for ch in score.chords:
@@ -217,7 +220,7 @@ def oracle(ctx):
         from musiclang.library import s0
         first = s.chords[0]
         s.chords[0] = first(piano__0=s0 + first.score['piano__0'])
-        inp = {'score': str(s)}
+        inp = {'score': str(s), 'plain_rests': rng.random() < 0.4}
         ctx.count('oracle', key=inp['score'], bucket='thread')
         try:
             r = check_thread(inp)
